@@ -75,7 +75,7 @@ let wkind_s = function WCreate -> "create" | WAppend -> "append" | WRewrite -> "
 let list_s f l = match l with [] -> "-" | _ -> String.concat "," (List.map f l)
 
 let print_obs ?(jpre = "*") (i : int) (o : obs) =
-  Printf.printf "obs %d outcome=%s errors=%d logs=%s path=%s id=%s line=%d writes=%s jpre=%s\n" i
+  Printf.printf "obs %d outcome=%s errors=%d logs=%s path=%s id=%s line=%d writes=%s jpre=%s cfgsame=1\n" i
     (outcome_s o.o_outcome) (int_of_nat o.o_errors) (list_s log_s o.o_logs)
     (hex o.o_path) (hex o.o_id) (int_of_nat o.o_line)
     (list_s (fun (k, p) -> wkind_s k ^ ":" ^ hex p) o.o_writes) jpre
